@@ -4,6 +4,7 @@ mod c07;
 mod c13;
 mod c13r;
 mod ioerr;
+mod sock;
 mod c16;
 mod c17;
 mod c19;
@@ -104,6 +105,26 @@ fn main() {
                 .iter()
                 .filter_map(|l| ioerr::parse(l))
                 .map(|s| ioerr::to_case(&s))
+                .collect();
+            write_cases(&out.expect("--out"), &cases);
+        }
+        ("sock", "gen") => {
+            let mut rng = Rng::new(seed);
+            let mut w = open_out(&out);
+            for _ in 0..count {
+                writeln!(w, "{}", sock::show(&sock::gen(&mut rng))).unwrap();
+            }
+        }
+        ("sock", "sweep") => {
+            let mut w = open_out(&out);
+            sock::sweep(|s| writeln!(w, "{}", sock::show(&s)).unwrap());
+        }
+        ("sock", "run") => {
+            let cases: Vec<Case> = read_lines(&input)
+                .iter()
+                .filter_map(|l| sock::parse(l))
+                .enumerate()
+                .map(|(i, s)| sock::to_case(&s, i))
                 .collect();
             write_cases(&out.expect("--out"), &cases);
         }
